@@ -59,6 +59,32 @@ macro_rules! extern_wasm {
     };
 }
 
+/// Verification hook (guard `--cfg bytecodealliance_wit_bindgen_verif`, off by default).
+///
+/// Shadows the macro above on non-wasm targets so the canonical built-ins are
+/// declared as ordinary C symbols named by their `link_name` (their wasm import
+/// name); a native harness then links a mock component-model host in place of the
+/// `unreachable!()` shims.
+#[cfg(all(bytecodealliance_wit_bindgen_verif, not(target_family = "wasm")))]
+macro_rules! extern_wasm {
+    (
+        $(#[$extern_attr:meta])*
+        unsafe extern "C" {
+            $(
+                $(#[$func_attr:meta])*
+                $vis:vis fn $func_name:ident ( $($args:tt)* ) $(-> $ret:ty)?;
+            )*
+        }
+    ) => {
+        unsafe extern "C" {
+            $(
+                $(#[$func_attr])*
+                $vis fn $func_name($($args)*) $(-> $ret)?;
+            )*
+        }
+    };
+}
+
 mod abi_buffer;
 mod cabi;
 mod error_context;
